@@ -297,6 +297,25 @@ func checkC18(t *testing.T, sc *Scenario) *Verdict {
 		v.Invalid = true
 		return v
 	}
+	noMember := map[int]bool{}
+	// the probes are positions in the requiring file: a scenario whose file no longer has the
+	// module strings where the knobs say (a minimisation candidate that cut the text) asks about
+	// nothing and is not a scenario of this property
+	for _, f := range sc.Files {
+		if f.Path != mainPath {
+			continue
+		}
+		lines := strings.Split(string(f.Data), "\n")
+		for _, rf := range refs {
+			if rf.Line >= len(lines) || !strings.Contains(lines[rf.Line], "\""+rf.Module+"\"") {
+				v.Invalid = true
+				return v
+			}
+			if rf.MemLine >= len(lines) || !strings.Contains(lines[rf.MemLine], ".common") {
+				noMember[rf.Line] = true // the member line was cut: the loaded-file comparison has nothing to ask
+			}
+		}
+	}
 	battery := func() []Op {
 		var ops []Op
 		for _, rf := range refs {
@@ -411,7 +430,7 @@ func checkC18(t *testing.T, sc *Scenario) *Verdict {
 				return bad("c18-features-disagree", phase+" hover and definition disagree on whether the module resolves", desc)
 			}
 			// definition on the string leads to the file the analysis actually loaded
-			if rf.Func == "require" && def != "" && pr.loaded[k] != def {
+			if rf.Func == "require" && def != "" && pr.loaded[k] != def && !noMember[rf.Line] {
 				tag := "definition on the string and the loaded file differ"
 				if pr.loaded[k] == "" {
 					tag = "module resolves but its member is unknown to the analysis"
